@@ -268,6 +268,7 @@ type vWorld struct {
 	blobs   []*vBlob
 	tors    []*vTorrent // last torrent object handed to the scheduler, per blob
 	peers   []*vPeer    // fake peer attached to the current dispatcher, per blob
+	peerCtrl []*torrentControl
 	npeers  int
 	cleanup func()
 }
@@ -310,6 +311,7 @@ func newVWorld(seederTTI, leecherTTI time.Duration, np, ntor int) *vWorld {
 		w.blobs = append(w.blobs, b)
 		w.tors = append(w.tors, nil)
 		w.peers = append(w.peers, nil)
+		w.peerCtrl = append(w.peerCtrl, nil)
 	}
 	return w
 }
@@ -364,8 +366,94 @@ func (w *vWorld) peer(i int) *vPeer {
 	if ctrl == nil {
 		return nil
 	}
-	if p := w.peers[i]; p != nil && !p.closed() && w.peerOf[i] == ctrl {
+	if p := w.peers[i]; p != nil && !p.closed() && w.peerCtrl[i] == ctrl {
 		return p
 	}
-	return nil
+	if p := w.peers[i]; p != nil {
+		// retire the old one: let its feed goroutine exit
+		p.Close()
+		p.recvOnce.Do(func() { close(p.recv) })
+	}
+	w.npeers++
+	p := newVPeer(w.npeers)
+	if err := ctrl.dispatcher.AddPeer(p.id, false, bitset.New(uint(w.np)), p); err != nil {
+		panic(err)
+	}
+	w.peers[i] = p
+	w.peerCtrl[i] = ctrl
+	return p
+}
+
+// servePiece makes the fake peer request piece pi of torrent i and plays the conn write loop on the
+// answer: reads the payload (unless noread) and closes it. Returns "absent" (no control), "sent"
+// (a piece payload was handed to the connection), "rejected" (an error message came back).
+func (w *vWorld) servePiece(i, pi int, read bool) string {
+	p := w.peer(i)
+	if p == nil {
+		return "absent"
+	}
+	p.drainSent()
+	length := w.blobs[i].mi.GetPieceLength(pi)
+	msg := &conn.Message{Message: &p2p.Message{Type: p2p.Message_PIECE_REQUEST,
+		PieceRequest: &p2p.PieceRequestMessage{Index: int32(pi), Offset: 0, Length: int32(length)}}}
+	if !p.roundTrip(msg) {
+		return "closed"
+	}
+	res := "nothing"
+	for _, m := range p.drainSent() {
+		switch m.Message.Type {
+		case p2p.Message_PIECE_PAYLOAD:
+			if read {
+				io.Copy(io.Discard, m.Payload)
+			}
+			m.Payload.Close()
+			res = "sent"
+		case p2p.Message_ERROR:
+			res = "rejected"
+		}
+	}
+	return res
+}
+
+// deliverPiece makes the fake peer send piece pi of torrent i (corrupted when !good) and reports
+// what the write did to the torrent: "absent", "ok" (piece newly complete), "dup" (was complete),
+// "invalid" (still missing).
+func (w *vWorld) deliverPiece(i, pi int, good bool) string {
+	p := w.peer(i)
+	if p == nil {
+		return "absent"
+	}
+	ctrl := w.ctrl(i)
+	data := append([]byte(nil), w.blobs[i].piece(pi)...)
+	if !good && len(data) > 0 {
+		data[0] ^= 0xff
+	}
+	had := pi >= 0 && pi < w.np && ctrl.dispatcher.Stat().Bitfield().Test(uint(pi))
+	msg := &conn.Message{Message: &p2p.Message{Type: p2p.Message_PIECE_PAYLOAD,
+		PiecePayload: &p2p.PiecePayloadMessage{Index: int32(pi), Offset: 0, Length: int32(len(data))}},
+		Payload: piecereader.NewBuffer(data)}
+	p.roundTrip(msg)
+	p.drainSent()
+	has := pi >= 0 && pi < w.np && ctrl.dispatcher.Stat().Bitfield().Test(uint(pi))
+	switch {
+	case had:
+		return "dup"
+	case has:
+		return "ok"
+	default:
+		return "invalid"
+	}
+}
+
+// takeCompletion waits for the DispatcherComplete notice of torrent i's current dispatcher.
+func (w *vWorld) takeCompletion(i int, wait time.Duration) (dispatcherCompleteEvent, bool) {
+	h := w.blobs[i].mi.InfoHash()
+	e, ok := w.loop.take(func(e event) bool {
+		ce, ok := e.(dispatcherCompleteEvent)
+		return ok && ce.dispatcher.InfoHash() == h
+	}, wait)
+	if !ok {
+		return dispatcherCompleteEvent{}, false
+	}
+	return e.(dispatcherCompleteEvent), true
 }
